@@ -229,6 +229,9 @@ func denseTree(lo *layouter, d *Dense) []Field {
 		kv = append(kv, 0)
 	}
 	var m []Field
+	if d.OmitEmptyCols && n == 0 && !d.HasInfo && !d.HasKeysVals {
+		return lo.apply(m, false)
+	}
 	if !d.OmitIDs {
 		m = append(m, fp(1, trim(deltas64(ids), d.Trim["id"])))
 	}
